@@ -177,7 +177,7 @@ theorem exBool_not_srcFeasible {x0 : K} (hk1 : k < x0) : ¬ srcFeasible (exBool 
   linarith
 
 /-- **Why `BoxEnforced` is a hypothesis**: with a bounds map in which the range of `x` is `[0, k]` while the
-domain handed to the linearizer still admits a value `x0 > k`, the model `max x s.t. max{x, k} ≤ k` compiles to
+domain handed to the linearizer still allows a value `x0 > k`, the model `max x s.t. max{x, k} ≤ k` compiles to
 the single row `0 ≤ 0`; the assignment `x = x0` is feasible for the linear model but not for the source. -/
 theorem boxEnforced_needed {x0 : K} (hx0 : inDomain x0 ty = true) (hk : 0 < k) (hk1 : k < x0) :
     ∃ (m : Model (Ext K)) (b : BoundsMap (Ext K)) (d : List (DomVar (Ext K))) (lm : LinModel (Ext K))
